@@ -12,6 +12,7 @@ import (
 	"github.com/weedbox/pokerface/combination"
 
 	"verif/internal/explore"
+	"verif/internal/hand"
 	"verif/internal/refmodel"
 )
 
@@ -54,18 +55,48 @@ type classInfo struct {
 // tables and checks that score <-> poker class is a strictly monotone bijection
 // and that the category name is right.
 func RunC03(rep *explore.Report) {
-	rep.Set("rule", "every 5-card subset of the 52- and of the 36-card deck, each under both ranking tables, each in ascending and in reversed card order; distinct_nontrivial = distinct (deck, table, poker class) triples whose score was compared against its neighbours in the reference order")
-	for _, short := range []bool{false, true} {
-		deck := Deck(short)
-		for _, tname := range []string{"standard", "short"} {
-			runC03(rep, deck, short, tname)
+	rep.Set("rule", "every 5-card subset of the 52- and of the 36-card deck, each under both ranking tables, each in ascending and in reversed card order; the whole enumeration twice: in a fresh process and again after real hands of every variant were played (the evaluator and its ranking tables are process-wide); distinct_nontrivial = distinct (deck, table, poker class) triples whose score was compared against its neighbours in the reference order")
+	phase := ""
+	pass := func() {
+		for _, short := range []bool{false, true} {
+			deck := Deck(short)
+			for _, tname := range []string{"standard", "short"} {
+				runC03(rep, deck, short, tname, phase)
+			}
 		}
 	}
+	pass()
+	// The evaluator is a library shared by every game of the process: play real hands of every
+	// variant (both option constructors, both decks, 2 and 4 hole cards), then require the two
+	// shipped ranking tables to be what they were and run the whole enumeration again.
+	phase = ":after-games"
+	for _, c := range []*hand.Config{
+		{Bankroll: []int64{5, 5, 5}, SB: 1, BB: 2, Limit: "no", Deck: "f52", Hole: 2, Table: "standard", Amounts: "classes"},
+		{Bankroll: []int64{5, 5, 5}, SB: 1, BB: 2, Limit: "no", Deck: "f36", Hole: 2, Table: "standard", Amounts: "classes"},
+		{Bankroll: []int64{5, 5, 5}, SB: 1, BB: 2, Limit: "no", Deck: "r36", Hole: 2, Table: "short", Amounts: "classes"},
+		{Bankroll: []int64{5, 5}, SB: 1, BB: 2, Limit: "pot", Deck: "t52", Hole: 4, Required: 2, Table: "standard", Amounts: "classes"},
+		{Bankroll: []int64{5, 5}, Ante: 1, SB: 1, BB: 2, Limit: "no", Deck: "f36", Hole: 4, Required: 2, Table: "short", Amounts: "classes"},
+	} {
+		if _, err := hand.PlayOut(c); err != nil {
+			rep.Broken = "C03: could not play a hand between the two enumerations: " + err.Error()
+		}
+		rep.Add("games_played_between_enumerations", 1)
+	}
+	wantStd := []combination.Combination{combination.CombinationHighCard, combination.CombinationPair, combination.CombinationTwoPair, combination.CombinationThreeOfAKind, combination.CombinationStraight, combination.CombinationFlush, combination.CombinationFullHouse, combination.CombinationFourOfAKind, combination.CombinationStraightFlush}
+	wantShort := append([]combination.Combination{}, wantStd...)
+	wantShort[5], wantShort[6] = combination.CombinationFullHouse, combination.CombinationFlush
+	for name, pair := range map[string][2][]combination.Combination{"standard": {combination.CombinationPowerStandard, wantStd}, "short": {combination.CombinationPowerShortDeck, wantShort}} {
+		if fmt.Sprint(pair[0]) != fmt.Sprint(pair[1]) {
+			cfg, _ := json.Marshal(c03cfg{Table: name})
+			rep.Violation(&explore.Violation{Engine: "none", Signature: "ranking-table-changed:" + name, Message: "the shipped " + name + " ranking table was modified by playing hands", Config: cfg, Expected: fmt.Sprint(pair[1]), Observed: fmt.Sprint(pair[0]), History: []string{"games of every variant played to showdown"}})
+		}
+	}
+	pass()
 	rep.Set("traces_validated_against_impl", rep.Get("transitions"))
 	rep.Set("evaluations", rep.Get("transitions"))
 }
 
-func runC03(rep *explore.Report, deck []string, shortDeck bool, tname string) {
+func runC03(rep *explore.Report, deck []string, shortDeck bool, tname string, phase string) {
 	tbl := table(tname)
 	shortTable := tname == "short"
 	n := len(deck)
@@ -86,8 +117,12 @@ func runC03(rep *explore.Report, deck []string, shortDeck bool, tname string) {
 	close(firstIdx)
 	report := func(sig, msg string, a, b []string, exp, obs string) {
 		cfg, _ := json.Marshal(c03cfg{Table: tname, A: a, B: b})
-		v := &explore.Violation{Engine: "cards-c03", Signature: sig, Message: msg, Config: cfg, Expected: exp, Observed: obs}
-		v.Confirm = func() (bool, string) { return ReplayC03(v) }
+		v := &explore.Violation{Engine: "cards-c03", Signature: sig + phase, Message: msg, Config: cfg, Expected: exp, Observed: obs}
+		if phase == "" {
+			v.Confirm = func() (bool, string) { return ReplayC03(v) }
+		} else {
+			v.Message += " (second enumeration, after real hands of every variant were played in this process)"
+		}
 		rep.Violation(v)
 	}
 	for w := 0; w < workers; w++ {
